@@ -49,6 +49,15 @@ CHECKS.update({
                      "checked against the chord definition on concrete graphs <=5 nodes.",
                 note="Bounds: <=4 variables (5 for triangulation), cards<=3. Two known findings are listed in known_findings.txt.", ref="5/C14"),
 })
+CHECKS["C08"] = dict(
+    text="(1) solver lemma: for ALL DAGs on n<=4 (5 thorough) nodes and all (x,y,Z) the Bayes-ball reachability encoding, the trail-based "
+         "definition in the property statement and the moralised-ancestral criterion agree (edges are z3 Booleans). (2) lazy symbolic execution: "
+         "pgmpy's real active_trail_nodes / is_dconnected / _get_ancestors_of / get_markov_blanket run on a DAG subclass whose predecessors/successors "
+         "answer from symbolic edge Booleans; each path covers all graphs agreeing on the inspected edges and z3 proves result == definition for every "
+         "completion. (3) eager: every DAG on <=4 nodes x labelings through get_independencies, local_independencies, minimal_dseparator (separates, "
+         "minimal, latent-free), get_ancestral_graph, moralize, BayesianNetwork and NaiveBayes overrides against the same oracle.",
+    note="Bounds: n<=4 (lemma/eager 5 in thorough). In eager mode the graph dimension is enumeration, not solver reasoning (DESIGN.md 3.5).",
+    ref="5/C08")
 
 NOT_APPLICABLE = {
     "C19": "statistic, dof and p-value are produced inside pandas.groupby / numpy.bincount / scipy.stats.chi2_contingency / chi2.cdf "
